@@ -54,6 +54,11 @@ type Run struct {
 	KeepTrace  bool
 	// NoFaultDimension: plans of this harness/property are non-trivial without a fired fault.
 	NoFaultDimension bool
+
+	// wall budget of the plan (real time, see WallOver); zero = none
+	wall0      int64
+	wallBudget time.Duration
+	abandoned  string
 }
 
 func NewRun(p *Plan) *Run {
@@ -154,6 +159,37 @@ func (r *Run) Violated() bool {
 	return len(r.violations) > 0
 }
 
+// SetWallBudget starts the plan's real-time budget (called outside the bubble by
+// ExecPlan; d = 0 switches it off, as in replays and single-plan runs).
+func (r *Run) SetWallBudget(d time.Duration) {
+	r.wall0 = rtNanotime()
+	r.wallBudget = d
+}
+
+// WallOver reports whether the plan has used up its real-time budget. It is a
+// statement about the machine (how loaded it is, how expensive this plan is),
+// never about the system under test.
+func (r *Run) WallOver() bool {
+	return r.wallBudget > 0 && time.Duration(rtNanotime()-r.wall0) > r.wallBudget
+}
+
+// AbandonIfWallOver ends the plan where it stands once its real-time budget is
+// used up. Only the plan's root goroutine may call it (at step boundaries and in
+// its waiting loops). What the oracles recorded up to here stands; end-of-plan
+// clauses are not evaluated and the plan is reported with verdict "abandoned"
+// (counted in the evidence, neither a pass nor an alarm). A worker that does not
+// even get here is still killed by the driver's watchdog (exit 2).
+func (r *Run) AbandonIfWallOver() {
+	if !r.WallOver() {
+		return
+	}
+	r.mu.Lock()
+	r.abandoned = fmt.Sprintf("wall budget of %s used up at simulated %d ms", r.wallBudget, r.NowMs())
+	why := r.abandoned
+	r.mu.Unlock()
+	panic(EndPlan{Why: why})
+}
+
 // Events returns a copy of the raw trace.
 func (r *Run) Events() []Event {
 	r.mu.Lock()
@@ -220,6 +256,10 @@ func (r *Run) Finish(wall time.Duration) *Result {
 		nf += v
 	}
 	res.Nontrivial = r.ops >= 1 && (nf >= 1 || r.NoFaultDimension)
+	if r.abandoned != "" {
+		res.Verdict = "abandoned"
+		res.Abandoned = r.abandoned
+	}
 	if len(r.violations) > 0 {
 		res.Verdict = "violation"
 		res.Violations = r.violations
